@@ -17,6 +17,8 @@ TRUSTED = pc.TRUSTED_T + [
     'the Gauss loops / laminate-table switch / COO book-keeping of the *_num kernels are checked as a schema by the '
     'translator and numerically by V, not proved; exactness of the Gauss rule for the quartic integrand is C10',
     'PanelAssembly.calc_kT / calc_fint glue (sum over panels + k0_conn) is covered by the Jacobian predicate on explored assemblies',
+    'Panel.calc_kT / calc_fint glue: hand model Model/PanelGlue.lean (calcKT, calcFint), tied by the recorded-kernel-call correspondence '
+    '(tools/props/C02.py glue_correspondence, methods kT and fint); the compiled kernels enter the glue theorems as parameters',
 ]
 ASSUMPTIONS = ['the per-point laminate table is read in its upper entries only (symmetry of each 6x6 table is the caller\'s duty)',
                'conical panels have no non-linear kernels registered (modelDB): outside C08']
@@ -268,9 +270,26 @@ def assembly_case(ctx, rng):
     return None, None
 
 
+def glue_tie(ctx):
+    """H: the hand model of Panel.calc_kT / Panel.calc_fint (Model/PanelGlue.lean: calcKT, calcFint - theorems calc_kT_dispatch,
+    calc_fint_dispatch, calc_kT_fint_consistent, calc_fint_zero_state, panel_tangent_is_jacobian_glue of Props/C08.lean) against the running
+    _panel.py: recorded kernel calls (names, every argument, exception class, returned vector / matrix), same driver and comparison as the
+    C02 glue correspondence, restricted to the two methods; returns True when a disagreement was reported"""
+    import random as _random
+    from tools.props import C02
+    r2 = _random.Random(ctx.seed * 7919 + 8)
+    cases = [g for g in C02.glue_corpus() if g['method'] in ('fint', 'kT')]
+    cases += [C02.gen_glue_case(r2, (5, 10, 11, 12)[i % 4] + 13 * i) for i in range(ctx.scale(60, 900))]
+    bad = C02.glue_correspondence(ctx, r2, cases=cases)
+    ctx.cov['glue_correspondence_kT_fint'] = ctx.cov.pop('glue_correspondence', None)
+    return bad
+
+
 def correspondence(ctx):
     ir = translate(ctx)
     rng = ctx.rng
+    if glue_tie(ctx):
+        return
     dist = dict(models={}, table=0, amp={})
     for t in range(ctx.scale(14, 150)):
         case = gen(ctx, rng)
